@@ -1,4 +1,256 @@
-import TonVerif.Model.Builder
+/-
+C06 — typed Builder stores and Slice loads are mutually inverse and bit-exact.
+
+Model: `Model/Builder.lean` (`BOp`: builder state after the call + "returned normally"; `SOp`: slice
+state after the call + result, `none` = raised).  `TVal` has one constructor per typed `store_*` call,
+`TVal.store` is that call, `Kind.load` / `Kind.preload` are the matching `load_*` / `preload_*` calls.
+Spec: `Spec/TlbPrim.lean` (TL-B encodings written from the TL-B rules), `Spec/TlbVal.lean`
+(`enc`/`refsOf` of a typed value, `InRange`, `WF`).  `Inv b` = the builder is within capacity
+(1023 bits, 4 refs) — an invariant of every reachable builder (C07 `c07_invariant`).
+All statements quantify over EVERY width, value, byte length class, address form and continuation.
+-/
+import TonVerif.Proofs.Typed
+import TonVerif.Proofs.Snake
+
 namespace TonVerif.Properties.C06
-theorem placeholder : True := trivial
+open TonVerif TonVerif.Model TonVerif.Spec.Tlb TonVerif.Proofs.Builder TonVerif.Proofs.Slice
+  TonVerif.Proofs.Typed TonVerif.Proofs.Snake TonVerif.Proofs.Bits
+variable {R : Type}
+
+/-- bit-exactness: a typed store that returns normally has appended exactly the TL-B encoding of the
+value to the data bits and exactly its references to the reference list. -/
+theorem c06_bits_exact (tv : TVal R) (b b' : Builder R) (hb : Inv b) (h : tv.store b = (b', true)) :
+    b'.bits = b.bits ++ enc tv ∧ b'.refs = b.refs ++ refsOf tv := by
+  have h2 : (tv.store b).2 = true := by rw [h]
+  have := ((store_spec tv).1 b hb).2 h2
+  rw [h] at this
+  simp only at this
+  rw [this]; exact ⟨rfl, rfl⟩
+
+/-- store → load: if `store_X(v)` returned normally on builder `b`, then a slice positioned at the
+first bit / reference it wrote, followed by ANY continuation `kb`/`kr` (whatever is stored later),
+`load_X` returns `v` and leaves exactly the continuation. (`WF`: `bytes` hold bytes, hash parts have
+32 bytes, a string read with an explicit length is non-empty.) -/
+theorem c06_store_load (tv : TVal R) (b b' : Builder R) (hb : Inv b) (h : tv.store b = (b', true))
+    (hw : WF tv) (kb : Bits) (kr : List R) :
+    tv.kind.load ⟨b'.bits.drop b.bits.length ++ kb, b'.refs.drop b.refs.length ++ kr⟩
+      = (⟨kb, kr⟩, some tv) := by
+  obtain ⟨e1, e2⟩ := c06_bits_exact tv b b' hb h
+  have h2 : (tv.store b).2 = true := by rw [h]
+  have hr : InRange tv := (((store_spec tv).1 b hb).1.mp h2).1
+  rw [e1, e2, List.drop_left, List.drop_left]
+  exact load_rt tv hr hw kb kr
+
+/-- the same, for a value in range, independent of any builder: reading the TL-B encoding back. -/
+theorem c06_decode_encode (tv : TVal R) (hr : InRange tv) (hw : WF tv) (kb : Bits) (kr : List R) :
+    tv.kind.load ⟨enc tv ++ kb, refsOf tv ++ kr⟩ = (⟨kb, kr⟩, some tv) :=
+  load_rt tv hr hw kb kr
+
+/-- sequences (induction over the list): storing any list of typed values into an empty builder, if
+every store returns normally, and loading the kinds back in the same order from the resulting cell
+returns the same values and leaves no bit and no reference unread. -/
+theorem c06_sequence (tvs : List (TVal R)) (b : Builder R) (h : storeAll tvs Builder.empty = (b, true))
+    (hw : ∀ tv ∈ tvs, WF tv) :
+    loadAll (tvs.map TVal.kind) ⟨b.bits, b.refs⟩ = (⟨[], []⟩, some tvs) := by
+  have ie := inv_empty (R := R)
+  have h2 : (storeAll tvs Builder.empty).2 = true := by rw [h]
+  obtain ⟨s1, s2⟩ := (storeAll_spec tvs).1 Builder.empty ie
+  have hr := (s1.mp h2).1
+  have hb := s2 h2
+  rw [h] at hb
+  simp only [Builder.empty, List.nil_append] at hb
+  rw [hb]
+  have := loadAll_rt tvs (fun tv ht => ⟨hr tv ht, hw tv ht⟩) [] ([] : List R)
+  simpa using this
+
+/-- the bits / references of the cell produced by a sequence of stores are the concatenated TL-B encodings. -/
+theorem c06_sequence_bits (tvs : List (TVal R)) (b : Builder R) (h : storeAll tvs Builder.empty = (b, true)) :
+    b.bits = encAll tvs ∧ b.refs = refsAll tvs := by
+  have ie := inv_empty (R := R)
+  have h2 : (storeAll tvs Builder.empty).2 = true := by rw [h]
+  have hb := ((storeAll_spec tvs).1 Builder.empty ie).2 h2
+  rw [h] at hb
+  simp only [Builder.empty, List.nil_append] at hb
+  rw [hb]; exact ⟨rfl, rfl⟩
+
+/-- the length prefix of a variable-length integer is MINIMAL: `byteLenU v` / `byteLenS v` (the `len`
+written by `store_var_uint` / `store_var_int` / `store_coins`, see `enc`) is the least `l` such that `v`
+fits `uint (8·l)` / `int (8·l)` — both signs. -/
+theorem c06_varint_minimal :
+    (∀ v l : Nat, byteLenU v ≤ l ↔ v < 2 ^ (8 * l)) ∧ (∀ (v : Int) (l : Nat), byteLenS v ≤ l ↔ FitsInt (8 * l) v) ∧
+    (∀ (k : Nat) (v : Int), enc (R := R) (.varUint k v)
+        = uintBits k (byteLenU v.toNat) ++ uintBits (8 * byteLenU v.toNat) v.toNat) ∧
+    (∀ (k : Nat) (v : Int), enc (R := R) (.varInt k v)
+        = uintBits k (byteLenS v) ++ intBits (8 * byteLenS v) v) :=
+  ⟨fun v l => by rw [TonVerif.Proofs.Bits.byteLenU_le_iff, pow256], byteLenS_le_iff, fun _ _ => rfl, fun _ _ => rfl⟩
+
+
+/-- concrete instances of the minimal length, incl. values whose top magnitude bit fills the byte. -/
+theorem c06_varint_minimal_values :
+    byteLenS 127 = 1 ∧ byteLenS 128 = 2 ∧ byteLenS 255 = 2 ∧ byteLenS 32767 = 2 ∧ byteLenS 32768 = 3 ∧
+    byteLenS (-1) = 1 ∧ byteLenS (-128) = 1 ∧ byteLenS (-129) = 2 ∧ byteLenS (-32768) = 2 ∧ byteLenS (-32769) = 3 ∧
+    byteLenS 0 = 0 ∧ byteLenU 0 = 0 ∧ byteLenU 255 = 1 ∧ byteLenU 256 = 2 ∧ byteLenU 65535 = 2 ∧ byteLenU 65536 = 3 := by
+  simp [byteLenS, magS, byteLenU]
+
+/-- peek = read: whenever the consuming read `load_X` returns a value, the non-consuming `preload_X`
+on the same slice returns the same value and leaves the slice unchanged — for every kind: uint, int,
+var-uint, var-int, coins, bit, bits, bytes, string, ref, maybe-ref, dict and address (`preload_address`
+has its own parsing logic for none / extern / std-without-anycast and re-reads a copy for anycast).
+
+The design's formulation `preload_X s = (load_X s).map fst` for ALL slices is false for the
+library: on an over-read `load_uint` raises while `preload_uint` returns the value of the bits that
+are left (`c06_preload_overread_differs` below); the property only speaks of what the consuming read
+would RETURN. -/
+theorem c06_preload_eq_load (k : Kind) (s s' : Slice R) (v : TVal R)
+    (h : k.load s = (s', some v)) : k.preload s = (s, some v) := by
+  cases k with
+  | uint n => obtain ⟨a, h1, rfl⟩ := map_some_inv h; exact map_of_some _ (preloadUint_of_load h1)
+  | int n => obtain ⟨a, h1, rfl⟩ := map_some_inv h; exact map_of_some _ (preloadInt_of_load h1)
+  | varUint k => obtain ⟨a, h1, rfl⟩ := map_some_inv h; exact map_of_some _ (preloadVarUint_of_load h1)
+  | varInt k => obtain ⟨a, h1, rfl⟩ := map_some_inv h; exact map_of_some _ (preloadVarInt_of_load h1)
+  | coins => obtain ⟨a, h1, rfl⟩ := map_some_inv h; exact map_of_some _ (preloadVarUint_of_load h1)
+  | bit => obtain ⟨a, h1, rfl⟩ := map_some_inv h; exact map_of_some _ (preloadBit_of_load h1)
+  | bits n => obtain ⟨a, h1, rfl⟩ := map_some_inv h; exact map_of_some _ (peekBits_of_load h1)
+  | bytes n => obtain ⟨a, h1, rfl⟩ := map_some_inv h; exact map_of_some _ (preloadBytes_of_load h1)
+  | string n => obtain ⟨a, h1, rfl⟩ := map_some_inv h; exact map_of_some _ (preloadString_of_load h1)
+  | ref => obtain ⟨a, h1, rfl⟩ := map_some_inv h; exact map_of_some _ (preloadRef_of_load h1)
+  | maybeRef => obtain ⟨a, h1, rfl⟩ := map_some_inv h; exact map_of_some _ (preloadMaybeRef_of_load h1)
+  | dict => obtain ⟨a, h1, rfl⟩ := map_some_inv h; exact map_of_some _ (preloadDict_of_load h1)
+  | addr => obtain ⟨a, h1, rfl⟩ := map_some_inv h; exact map_of_some _ (preloadAddress_of_load h1)
+
+/-- the converse direction fails in the library as it is: with 3 bits left `load_uint(10)` raises but
+`preload_uint(10)` returns 5. -/
+theorem c06_preload_overread_differs :
+    (SOp.loadUint 10 (⟨[true, false, true], []⟩ : Slice Nat)).2 = none ∧
+    (SOp.preloadUint 10 (⟨[true, false, true], []⟩ : Slice Nat)).2 = some 5 := by
+  constructor
+  · rw [loadUint_eq]; simp
+  · simp [SOp.preloadUint, SOp.bind, SOp.peekBits, SOp.ofOption, SOp.ba2intU, natOfBits]
+
+/-- the spec is self-consistent: the number denoted by `uint n` / `int n` encodings is the value -/
+theorem c06_spec_consistent (n : Nat) :
+    (∀ v : Nat, v < 2 ^ n → bitsVal (uintBits n v) = v) ∧
+    (∀ v : Int, 0 < n → FitsInt n v → bitsValS (intBits n v) = v) := by
+  constructor
+  · intro v h
+    rw [← natToBits_eq_uintBits, ← natOfBits_eq_bitsVal]; exact natOfBits_natToBits n v h
+  · intro v hn h
+    have h1 := ba2intS_intBits n v hn h
+    have hne : (intBits n v).isEmpty = false := by
+      cases hh : intBits n v with
+      | nil => have : (intBits n v).length = n := by unfold intBits; exact uintBits_length _ _
+               rw [hh] at this; simp at this; omega
+      | cons _ _ => rfl
+    rw [ba2intS_eq_bitsValS _ hne] at h1
+    exact Option.some.inj h1
+
+/-- an address that passes the library's range checks, has a 32-byte hash part and (for anycast) a depth
+of at most 30 is encoded as a VALID TL-B `MsgAddress` -/
+theorem c06_addr_valid (a : Addr) (hr : InRange (R := R) (.addr a)) (hw : WF (R := R) (.addr a))
+    (hd : match a with | .std (some (d, _)) _ _ => d ≤ 30 | _ => True) : (addrOf a).Valid := by
+  cases a with
+  | none => trivial
+  | ext len val =>
+    simp only [InRange] at hr
+    simp [addrOf, MsgAddress.Valid, hr.1]
+  | std any wc h =>
+    simp only [InRange] at hr
+    simp only [WF] at hw
+    cases any with
+    | none => simp [addrOf, MsgAddress.Valid, hr.2, hw.2]
+    | some dp =>
+      obtain ⟨d, p⟩ := dp
+      simp only at hr hd
+      simp [addrOf, MsgAddress.Valid, hr.2, hw.2, hr.1.1, hd]
+
+/-- non-vacuity of `c06_addr_valid`: an anycast address with depth 30 -/
+example : InRange (R := Nat) (.addr (.std (some (30, 5)) (-1) (List.replicate 32 7))) ∧
+    WF (R := Nat) (.addr (.std (some (30, 5)) (-1) (List.replicate 32 7))) := by
+  simp [InRange, WF, FitsUint, FitsInt, Bytes.WF]
+
+/-! ### snake data
+
+Full statement aimed at (DESIGN §6): for every byte string `bs`,
+`load_snake_bytes(store_snake_bytes(bs, empty builder).end_cell()) = bs` whenever the chain depth is
+≤ 1023, and the store raises (depth error from `end_cell`) beyond; the cells form the TL-B
+`SnakeData` chain (`Spec.Tlb.snakeCell`).
+
+Proved (`_partial`): the round trip for byte strings of ANY length, into ANY within-capacity builder
+without references, for every cell constructor `mk` (= `end_cell`) / view (= `begin_parse`) pair with
+`view (mk bits refs) = (bits, refs)`, whenever the store returns normally (in particular every
+`end_cell` of the chain succeeded, i.e. the depth limit was respected), and that the store is never
+refused when `mk` never fails.  Missing: `mk` is not instantiated with the depth-checking constructor
+of C01 (so "raises exactly beyond depth 1023" is not proved; the harness runs the real library up to
+130 kB in the thorough tier), and the produced tree is not related to `Spec.Tlb.snakeCell`.
+Python's recursion limit is outside the model. -/
+
+/-- snake round trip (partial, see above): what `store_snake_bytes(bs)` appended after the content
+of `b` is byte-aligned, and `load_snake_bytes` on it (with the references of the result) returns `bs`,
+for every recursion budget `≥ len + 2`. -/
+theorem c06_snake_partial (mk : Bits → List R → Option R) (view : R → Bits × List R)
+    (hv : ∀ bits refs c, mk bits refs = some c → view c = (bits, refs))
+    (bs : Bytes) (hw : Bytes.WF bs) (b b' : Builder R) (hb : Proofs.Builder.Inv b) (hr : b.refs = [])
+    (h : BOp.storeSnake mk bs b = (b', true)) :
+    ∃ tail, b'.bits = b.bits ++ tail ∧ tail.length % 8 = 0 ∧
+      ∀ fuel, bs.length + 2 ≤ fuel → (SOp.loadSnakeFuel view fuel ⟨tail, b'.refs⟩).2 = some bs :=
+  snake_rt mk view hv (bs.length + 2) bs b b' hw hb.1 hr h
+
+/-- `store_snake_bytes` is never refused on a within-capacity builder with a free reference slot when
+the cell constructor does not fail (chain depth within the limit) — any length. -/
+theorem c06_snake_never_refused (mk : Bits → List R → Option R) (hmk : ∀ bits refs, (mk bits refs).isSome)
+    (bs : Bytes) (b : Builder R) (hb : Proofs.Builder.Inv b) (hr : b.refs.length < 4) :
+    (BOp.storeSnake mk bs b).2 = true :=
+  snake_ok mk hmk bs b hb.1 hr
+
+/-- both together on bare cell trees (`Spec.Tlb.SCell`, constructor total): storing ANY byte string
+into the empty builder succeeds and loading the resulting cell returns it. Non-vacuity of the two
+theorems above as well. -/
+theorem c06_snake_trees (bs : Bytes) (hw : Bytes.WF bs) :
+    ∃ b', BOp.storeSnake (fun bits refs => some (SCell.mk bits refs)) bs (Builder.empty : Builder SCell) = (b', true) ∧
+      ∀ fuel, bs.length + 2 ≤ fuel →
+        (SOp.loadSnakeFuel (fun c => match c with | SCell.mk bits refs => (bits, refs)) fuel ⟨b'.bits, b'.refs⟩).2 = some bs := by
+  have hok := c06_snake_never_refused (R := SCell) (fun bits refs => some (SCell.mk bits refs)) (fun _ _ => rfl) bs
+    Builder.empty inv_empty (by simp [Builder.empty])
+  refine ⟨(BOp.storeSnake (fun bits refs => some (SCell.mk bits refs)) bs (Builder.empty : Builder SCell)).1,
+    Prod.ext rfl hok, ?_⟩
+  obtain ⟨tail, e1, _, e3⟩ := c06_snake_partial (R := SCell) (fun bits refs => some (SCell.mk bits refs))
+    (fun c => match c with | SCell.mk bits refs => (bits, refs))
+    (by intro bits refs c hc; simp only [Option.some.injEq] at hc; subst hc; rfl)
+    bs hw Builder.empty _ inv_empty rfl (Prod.ext rfl hok)
+  have e1' : (BOp.storeSnake (fun bits refs => some (SCell.mk bits refs)) bs (Builder.empty : Builder SCell)).1.bits
+      = tail := by rw [e1]; rfl
+  rw [e1']; exact e3
+
+/-! ### non-vacuity -/
+
+/-- ten typed values of different kinds (references are numbers here) -/
+def sampleVals : List (TVal Nat) :=
+  [.uint 8 200, .int 8 (-3), .varInt 4 (-129), .coins 1000, .bit true, .maybeRef (some 7), .dict none,
+   .addr (.ext 3 5), .addr (.std (some (3, 5)) (-1) (List.replicate 32 171)), .bytes [1, 255],
+   .string [104, 105]]
+
+theorem sampleVals_ok : (∀ tv ∈ sampleVals, InRange tv) ∧ (∀ tv ∈ sampleVals, WF tv) ∧
+    (encAll sampleVals).length = 380 ∧ (refsAll sampleVals).length = 1 := by
+  refine ⟨?_, ?_, ?_, ?_⟩
+  · simp [sampleVals, InRange, FitsUint, FitsInt, byteLenS, magS, byteLenU]
+  · simp [sampleVals, WF, Bytes.WF]
+  · simp [sampleVals, encAll, enc, varIntBits, gramsBits, varUIntBits, intBits, addrOf, addrBits,
+      anycastBits, maybeRefBits, byteLenS, magS, byteLenU]
+  · simp [sampleVals, refsAll, refsOf, maybeRefRefs]
+
+/-- the hypotheses of `c06_sequence` (and hence of `c06_bits_exact`, `c06_store_load` for each element)
+are met by `sampleVals`: all eleven stores return normally. -/
+example : ∃ b, storeAll sampleVals Builder.empty = (b, true) ∧ ∀ tv ∈ sampleVals, WF tv := by
+  obtain ⟨hr, hw, hl, hq⟩ := sampleVals_ok
+  have h := ((storeAll_spec sampleVals).1 Builder.empty inv_empty).1.mpr
+    ⟨hr, by simp [Builder.empty, hl], by simp [Builder.empty, hq]⟩
+  exact ⟨(storeAll sampleVals Builder.empty).1, Prod.ext rfl h, hw⟩
+
+/-- a `load` that returns a value exists (hypothesis of `c06_preload_eq_load`) -/
+example : (Kind.varInt 4).load (⟨enc (R := Nat) (.varInt 4 (-129)), []⟩ : Slice Nat)
+    = (⟨[], []⟩, some (.varInt 4 (-129))) := by
+  have := c06_decode_encode (R := Nat) (.varInt 4 (-129))
+    (by simp [InRange, byteLenS, magS, byteLenU]) (by simp [WF]) [] []
+  simpa [refsOf, TVal.kind] using this
+
 end TonVerif.Properties.C06
